@@ -364,6 +364,9 @@ def native_ctor_seq(i1, j1, i2, j2):
 def task_ctor_seq():
     eng = Engine()
     eng.own_class(RecRule, RecEncoder, RecSpec, RecDB, RecDecoder, RecL2T, RecPkg)
+    # rule objects built at import time (before the stand-ins are installed) are real pylatexenc objects: plain attribute holders
+    from pylatexenc.latexencode import UnicodeToLatexConversionRule as _RealRule
+    eng.own_class(_RealRule)
     rec = Recorder(eng)
     LE, saved = patched_ctor_env()
     try:
